@@ -1,5 +1,7 @@
 import PfVerif.Audit.Tool
 import PfVerif.Props.C13
 import PfVerif.Lemmas.C13Round
+import PfVerif.Lemmas.C13System
 #audit_module PfVerif.Props.C13
 #audit_module_ns PfVerif.Lemmas.C13Round PfVerif.C13Round
+#audit_module_ns PfVerif.Lemmas.C13System PfVerif.C13System
